@@ -169,7 +169,7 @@ def main_prop(prop, tier, replay=None, selftest=False):
         run(ck, prop, sj, [p], tier)
         return ck.finish(exhaustive=False, rule="replay")
     nsim, limit = (3000, 260) if tier == "quick" else (40000, 3000)
-    sj, progs = progcheck.tlc_program_sample(ck, nsim, limit, ext=(100 if tier == "quick" else 600))
+    sj, progs = progcheck.tlc_program_sample(ck, nsim, limit, ext=(100 if tier == "quick" else 600), extra_docs=PINNED_DOCS)
     os.makedirs(os.path.join(vlib.WORK, "c01"), exist_ok=True)
     json.dump(sj, open(os.path.join(vlib.WORK, "c01", "schema.json"), "w"))
     if len(progs) < 40:
@@ -181,6 +181,15 @@ def main_prop(prop, tier, replay=None, selftest=False):
             q["renamed"] = True
             q["hash"] = p["hash"] + "r"
             extra.append(q)
+    # three programs in four: fragment names whose snake_case form is a Rust keyword (`Type`, `Match`, `Async`) - the
+    # names of the flattened members that hold the fragments (pure renaming; defect D32)
+    nfr = 0
+    for i, p in enumerate(progs):
+        merges = any(f[0] == "variant-merge" for f in progcheck.doc_features(sj, p["doc"]))   # always: the members built at the variant sites
+        if (merges or i % 4 != 0) and any(d["k"] == "frag" for d in p["doc"]["defs"]):
+            prog.rename_program(p, mapping={})
+            nfr += 1
+    ck.notes["programs_with_keyword_fragment_names"] = nfr
     progs = progs + extra
     ck.notes["renamed_programs_under_rust_normalization"] = len(extra)
     if selftest:
@@ -204,6 +213,26 @@ def main_prop(prop, tier, replay=None, selftest=False):
                      rule="programs from seeded TLC simulation of ProgGen, covering sample over grammar productions "
                           "(scope type x field / type condition / spread target, nesting kinds) plus seeded fill; per program every single-position "
                           "alternative of the execution-shape oracle; distinct = distinct (program, vector) pairs")
+
+
+def _n(d, p, k, name="", alias="", on=""):
+    return {"d": d, "p": p, "k": k, "name": name, "alias": alias, "on": on}
+
+
+# documents that are always part of the sample (shapes the random sample reaches only by chance):
+# a variant that is built from a spread of a member-type fragment written directly in the abstract selection set
+# PLUS an inline fragment on that member, and from a lone-spread inline fragment PLUS another inline fragment
+# (the two sites of codegen/selection.rs that name a flattened member after a fragment inside a variant: D32)
+PINNED_DOCS = [
+    {"defs": [{"k": "op", "name": "MyOp", "kind": "query", "on": ""},
+              {"k": "frag", "name": "FragA", "kind": "", "on": "Robot"},
+              {"k": "frag", "name": "FragB", "kind": "", "on": "Cat"}],
+     "nodes": [_n(1, 0, "field", "pet"), _n(1, 1, "typename", "__typename"), _n(1, 1, "spread", "FragA"),
+               _n(1, 1, "inline", on="Robot"), _n(1, 4, "field", "model"),
+               _n(1, 1, "inline", on="Cat"), _n(1, 6, "spread", "FragB"),
+               _n(1, 1, "inline", on="Cat"), _n(1, 8, "field", "lives"),
+               _n(2, 0, "field", "serial"), _n(3, 0, "field", "name")]},
+]
 
 
 def main(tier, replay=None, selftest=False):
